@@ -141,8 +141,8 @@ Definition verdict (c : ncase) : N :=
   let hard := negb (o1 && o2 && o3) in
   let soft_fail := negb (o4 && o5 && o6 && o7) in
   let k_peering := soft_fail && peering in
-  let k_shortcut := soft_fail && negb peering && shortcut in
-  let k_peer_change := soft_fail && negb peering && negb shortcut && peer_change in
+  let k_peer_change := soft_fail && negb peering && peer_change in
+  let k_shortcut := soft_fail && negb peering && negb peer_change && shortcut in
   let unknown := hard || (soft_fail && negb peering && negb shortcut && negb peer_change) in
   (if mismatch then 1 else 0) + (if unknown then 2 else 0)
   + (if k_shortcut then 16 else 0) + (if k_peering then 32 else 0) + (if k_peer_change then 64 else 0)
